@@ -263,6 +263,8 @@ class Exec:
         for s, f in self.expr(n.func, st):
             args = []
             for a in n.args:
+                if isinstance(a, ast.Starred):
+                    (s, v), = list(self.expr(a.value, s)); args.extend(v); continue
                 (s, v), = list(self.expr(a, s)); args.append(v)
             kw = {}
             for k in n.keywords:
@@ -499,7 +501,7 @@ def demo_push_expected_nonblocking():
     tot, bad = discharge('push_expected_nonblocking', res)
     print(f"[push_expected_nonblocking/LATEST] paths={len(res)} (fired={sum(any(e[0]=='push_selection' for e in s.ev) for s,_ in res)}) obligations={tot} failed={[(b[0], str(b[1])) for b in bad]}")
 
-if __name__ == '__main__':
+if __name__ == "__main__":
     t0 = time.time()
     demo_set_delay(); demo_push_ts_input(); demo_push_expected_nonblocking()
     print("wall %.1fs" % (time.time() - t0))
